@@ -183,6 +183,7 @@ def run(ctx):
         c07b(ctx, tu)
         c07c(ctx, tu)
         C03.c03b(ctx, tu)    # TIMES(0) / RT_TIMES(0) must really set the upper limit 0
+        C03.c03a(ctx, tu)    # ... and is_forbidden (base and every override) must read it: max == 0
         from rules import C04
         C04.c04b(ctx, tu)    # (C01.e) a forbid stops shadowing when its lifetime ends: unlinked on every path
         units.append({"unit": tu.name, "functions": len(tu.fns)})
